@@ -38,6 +38,7 @@ class Contract(object):
         self.result_fresh = kw.pop('result_fresh', False)
         self.note = kw.pop('note', '')
         self.variant_of = kw.pop('variant_of', None)
+        self.merge_exits = kw.pop('merge_exits', True)  # merge exits through the same site into one obligation set
         self.feas_ms = kw.pop('feas_ms', None)          # feasibility-check budget per fork (unknown = feasible)
         self.consts = kw.pop('consts', {})              # parameter -> concrete Python value (specialised variant)
         self.variants = kw.pop('variants', {})          # (param, value) -> qual of the specialised contract
@@ -199,8 +200,10 @@ class SpecEval(object):
                 fty = ft
                 if not self.extra_has_bound():
                     a = va(base.term)
+                    hp = getattr(self.st, 'heap', {})
+                    untouched = attr not in hp or hp[attr].eq(z3.Const('H0_' + attr, FieldArr))
                     self.typing.append(Implies(And(is_ref(base.term), a >= 0, a < self.st.nxt, KIND(a) == K_INST,
-                                                   cls_in(CLS(a), ty.cls)), shape(self.st, term, ft)))
+                                                   cls_in(CLS(a), ty.cls)), shape(self.st, term, ft, pre=untouched)))
         return SV(term, fty)
 
     def extra_has_bound(self):
